@@ -4,13 +4,21 @@ Every cut point of accepted inputs; a wrapper stream that injects, at every read
 (short read, then nothing) or an exception; after every failure the same types parse a known-good input again (no residue).
 The Lean model is compared on every cut (it has the same EOF behaviour primitive by primitive), and the theorem
 `c08_shortened` is the unbounded statement.
+
+Residue histories (harness/s3_residue.py): one stream holds two records of a structure with pointers (to scalars, char*
+strings, fixed and dynamic structures, pointers; directed and random definitions) and a target area; between the parse of
+the first and of the second record, operations that fail are carried out on the same stream and types - dereferences of
+pointers whose target is cut off / beyond the end / an unterminated string / null, dereferences and parses with an injected
+stream fault, parses started too close to the end, parses of truncated bytes. The second parse (value, stream position
+before and after, outcome of dereferencing its pointers) must equal what it is without the failed operations, and a fresh
+run afterwards must equal the first one.
 """
 from __future__ import annotations
 
 import io
 import itertools
 
-from .. import defs, impl, refimpl
+from .. import defs, impl, refimpl, s3_residue
 from ..common import Result, mkrng
 from ..structprops import Engine, load, real_parse, rand_bytes, has_eof, has_union
 
@@ -52,7 +60,9 @@ def run(env) -> Result:
     res = Result()
     res.rule = ("seeded random definition trees x {<,>} x {packed, aligned} x {interpreted, compiled}; for an accepted input: every cut point "
                 "(the parse must raise EOFError or return the value of the complete input) and every read-call index x {premature end with 0 or "
-                "half of the requested bytes, OSError}; after each failure a known-good input is parsed again with the same types. distinct = "
+                "half of the requested bytes, OSError}; after each failure a known-good input is parsed again with the same types. Residue histories: "
+                "two records with pointers on one stream, failing dereferences (cut-off / unterminated / null targets, injected faults) and failing "
+                "parses between the two parses, second parse compared with the run without them. distinct = "
                 "(definition, config, input, cut or fault); non-trivial = cut strictly inside the encoded extent")
     eng = Engine(env, res, "C08")
     rnd = mkrng(env["seed"], "c08")
@@ -125,10 +135,82 @@ def run(env) -> Result:
         if len(eng.lines) > 4000:
             eng.flush()
     eng.flush()
+    run_residue(env, eng, res, mkrng(env["seed"], "c08-residue"))
     return res
+
+
+def run_residue(env, eng, res, rnd):
+    tier = env["tier"]
+    for _ in range(260 if tier == "quick" else 3000):
+        if rnd.random() < 0.7:
+            tree = s3_residue.ptr_tree(rnd)
+            src = "directed"
+        else:
+            tree = defs.Gen(rnd, max_depth=rnd.choice([1, 2]), allow_eof=False).struct()
+            src = "random"
+            if not s3_residue.tree_has_ptr_outside_union(tree):
+                continue
+        for endian, align, compiled in itertools.product("<>", (False, True), (False, True)):
+            if rnd.random() < (0.7 if tier == "quick" else 0.4):
+                continue
+            pointer = rnd.choice(["uint64", "uint32", "uint16"])
+            L, err = load(tree, endian=endian, align=align, compiled=compiled, pointer=pointer)
+            if L is None:
+                if src == "directed":
+                    eng.report(f"definition rejected: {type(err).__name__}: {err}", {"definition": defs.render_struct("T", tree)}, [])
+                continue
+            T = L.T
+            sigs = eng.sigs(L)
+            built = s3_residue.build_stream(rnd, T, T.size if T.size is not None else 40, 1 << (8 * {"uint64": 8, "uint32": 4, "uint16": 2}[pointer]))
+            if built is None:
+                res.feat("residue: no accepted record pair")
+                continue
+            stream, l1, l2 = built
+            try:
+                clog, _, cbefore, control = s3_residue.run_history(T, stream, [], stream[:l1])
+            except Exception:  # noqa: BLE001
+                res.feat("residue: first record does not parse")
+                continue
+            if control[0] != "ok":
+                res.feat("residue: second record does not parse in the control run")
+            nptr = len(s3_residue.pointers(T(stream)))
+            if not nptr:
+                continue
+            res.feat(f"residue-case:{src}")
+            for _k in range(6 if tier == "quick" else 12):
+                ops = s3_residue.make_ops(rnd, nptr, len(stream), l1)
+                try:
+                    log, nfailed, before, obs = s3_residue.run_history(T, stream, ops, stream[:l1])
+                except Exception as e:  # noqa: BLE001
+                    eng.report(f"the first record no longer parses: {type(e).__name__}", eng.case_data(L, stream=stream, ops=ops), sigs)
+                    continue
+                res.count((L.text, endian, align, compiled, pointer, stream, tuple(ops)), nfailed > 0)
+                for entry in log:
+                    o = entry[-1]
+                    res.feat(f"residue-op:{entry[0]}:" + ("failed:" + o[1] if isinstance(o, tuple) and o[0] == "err" else "succeeded"))
+                if not nfailed:
+                    continue
+                if before != cbefore or obs != control:
+                    cd = eng.case_data(L, stream=stream, record_lengths=[l1, l2], history=["T(stream)"] + [repr(x) for x in log] + ["T.read(stream)"],
+                                       ops=[list(o) for o in ops], position_before_second_parse=before, expected_position=cbefore,
+                                       second_parse=repr(obs)[:600], second_parse_without_failed_ops=repr(control)[:600])
+                    eng.report(f"after failed operations {[x[0] for x in log]} the stream stands at {before} (without them: {cbefore}) and the next parse "
+                               f"gives {repr(obs)[:160]}; without the failed operations it gives {repr(control)[:160]} (residue)", cd, sigs)
+            # residue in the types: a fresh control run equals the first one
+            try:
+                _, _, b2, again = s3_residue.run_history(T, stream, [], stream[:l1])
+            except Exception as e:  # noqa: BLE001
+                b2, again = None, ("err", type(e).__name__)
+            if b2 != cbefore or again != control:
+                eng.report("after failed operations a fresh stream with the same bytes parses differently with the same types (residue)",
+                           eng.case_data(L, stream=stream, second_parse=repr(again)[:600], expected=repr(control)[:600]), sigs)
 
 
 def replay(body) -> int:
     print("replay:", body.get("what"))
-    print(body.get("case", {}).get("repro"), body.get("case", {}).get("data"), body.get("case", {}).get("cut"), body.get("case", {}).get("fault"))
+    case = body.get("case", {})
+    print(case.get("repro"))
+    for k, v in case.items():
+        if k not in ("repro", "definition"):
+            print(f"  {k}: {v}")
     return 0
